@@ -67,6 +67,7 @@ class WriteSingleCoilRequest(ModbusRequest):
         '''
         self.address, value = struct.unpack('>HH', data)
         self.value = (value == ModbusStatus.On)
+        self.value_is_legal = value in (ModbusStatus.Off, ModbusStatus.On)
 
     def execute(self, context):
         ''' Run a write coil request against a datastore
@@ -74,8 +75,8 @@ class WriteSingleCoilRequest(ModbusRequest):
         :param context: The datastore to request from
         :returns: The populated response or exception message
         '''
-        #if self.value not in [ModbusStatus.Off, ModbusStatus.On]:
-        #    return self.doException(merror.IllegalValue)
+        if not getattr(self, 'value_is_legal', True):
+            return self.doException(merror.IllegalValue)
         if not context.validate(self.function_code, self.address, 1):
             return self.doException(merror.IllegalAddress)
 
